@@ -84,6 +84,64 @@ fn run_rd_case(l: &[Val]) -> Val {
     ])
 }
 
+// ------------------------------------------------------------------ C10: GrState
+fn gr_output_val(o: &GrOutput) -> Val {
+    match o {
+        GrOutput::StartTimer(d) => Val::L(vec![Val::n(0u8), Val::n(d.as_secs())]),
+        GrOutput::StopTimer => Val::L(vec![Val::n(1u8)]),
+        GrOutput::DeleteStaleRoutes(l) => {
+            Val::L(vec![Val::n(2u8), Val::L(l.iter().map(fam_val).collect())])
+        }
+        GrOutput::StartLlgrTimers(l) => Val::L(vec![
+            Val::n(3u8),
+            Val::L(l.iter()
+                .map(|(f, d)| Val::L(vec![fam_val(f), Val::n(d.as_secs())]))
+                .collect()),
+        ]),
+        GrOutput::StopLlgrTimers => Val::L(vec![Val::n(4u8)]),
+        GrOutput::DeleteLlgrStaleRoutes(l) => {
+            Val::L(vec![Val::n(5u8), Val::L(l.iter().map(fam_val).collect())])
+        }
+    }
+}
+
+fn gr_input_of(v: &Val) -> GrInput {
+    let l = v.list();
+    match l[0].int() {
+        0 => GrInput::SessionDropped {
+            gr: l[1].list().first().map(|g| GrParams {
+                families: fams_of(g.at(0)),
+                restart_time: Duration::from_secs(g.at(1).u64()),
+            }),
+            llgr: l[2].list().first().map(|lp| LlgrParams {
+                families: lp
+                    .list()
+                    .iter()
+                    .map(|p| (fam_of(p.at(0)), Duration::from_secs(p.at(1).u64())))
+                    .collect(),
+            }),
+        },
+        1 => GrInput::SessionEstablished { gr_families: fams_of(&l[1]) },
+        2 => GrInput::EorReceived(fam_of(&l[1])),
+        3 => GrInput::TimerExpired,
+        4 => GrInput::LlgrTimerExpired(fam_of(&l[1])),
+        t => panic!("verif: bad gr input tag {}", t),
+    }
+}
+
+fn run_grstate_case(l: &[Val]) -> Val {
+    let mut gr = GrState::new();
+    let mut steps = Vec::new();
+    for i in l[1].list() {
+        let o = gr.process(gr_input_of(i));
+        steps.push(Val::L(vec![
+            Val::L(o.iter().map(gr_output_val).collect()),
+            Val::b(gr.is_peer_restarting()),
+        ]));
+    }
+    Val::L(steps)
+}
+
 // ------------------------------------------------- C11: deferral slice of the RIB
 // ops: [0,f] start_deferral | [1,f,net,peer,pid,filtered] insert | [2,f] end_deferral
 // public API of rustybgp-table only; every insert carries a fresh attribute block.
@@ -191,6 +249,7 @@ fn run_case(case: &Val) -> Val {
     let l = case.list();
     match l[0].int() {
         0 => run_rd_case(l),
+        1 => run_grstate_case(l),
         2 => run_tab_case(l),
         t => panic!("verif: bad gr case kind {}", t),
     }
